@@ -270,6 +270,12 @@ def run(ctx):
             s = G.with_unused_node(s, rng)
         scale = rng.choice(["0.25", "0.5", "1", "0.125", "2"])
         dscale = rng.choice(["0.5", "1", "0.25", "2"])
+        if i % 4 == 2 and s.bars:
+            # small local loads drawn with small scales (each option alone would still give them some height): one polygon each
+            b = s.bars[i // 4 % len(s.bars)]["id"]
+            for term, v in (("fx", 40), ("fy", 55), ("fx", 6)):
+                s.loads.append({"kind": "d", "term": term, "local": True, "bar": b, "t0": Fr("0.125"), "v0": Fr(v), "t1": Fr("0.625"), "v1": Fr(v) + 20})
+            scale, dscale = [("0.1", "0.1"), ("2", "0.01"), ("0.125", "0.25")][i // 4 % 3]
         dark = rng.random() < 0.5
         items.append((s.text(), scale, dscale, dark))
     import glob
@@ -325,6 +331,32 @@ def run(ctx):
             continue
         terms.append(case_term(o, parsed[1], events, scale, dscale))
         kept.append(rep)
+    # the same structure plotted three times in one process (light, dark, light): a plot does not depend on the plots made
+    # before it and leaves the structure as it was
+    sel = [(t, a, b) for (t, a, b, d), o in zip(items, outs) if not o.get("ParsePanic") and o.get("Bars")][: (8 if ctx.tier == "quick" else 80)]
+    multi = C.dump("plots", [{"Text": t, "Scale": a, "DScale": b} for t, a, b in sel]) if sel else []
+    for (text, scale, dscale), mo in zip(sel, multi):
+        rep = {"text": text, "scale": scale, "dscale": dscale, "how": "harness/bin/dump plots: StructureToSVG light, dark, light on one structure value"}
+        if mo.get("Panic") or len(mo.get("SVGs") or []) != 3:
+            ctx.violation("plotting one structure three times in a process fails: %s" % (mo.get("Panic") or "")[:160], rep)
+            concrete += 1
+            continue
+        ps = [parse_svg(x) for x in mo["SVGs"]]
+        if any(isinstance(p_, str) for p_ in ps):
+            ctx.violation("a repeated plot is not as specified: %s" % next(p_ for p_ in ps if isinstance(p_, str)), rep)
+            concrete += 1
+            continue
+        geo = [(p_[0], sorted(p_[1]), sorted(p_[2])) for p_ in ps]
+        if sorted(mo["SVGs"][0].split("\n")) != sorted(mo["SVGs"][2].split("\n")):
+            ctx.violation("the third plot of a structure (light) is not the first one (light): what a plot shows depends on the plots made before it", rep)
+            concrete += 1
+        elif geo[0] != geo[1]:
+            ctx.violation("plotted after a light plot of the same structure, the dark plot differs from it in more than colours", rep)
+            concrete += 1
+        elif mo.get("BarsBefore") != mo.get("BarsAfter"):
+            ctx.violation("plotting changed the structure (bars / loads differ after three plots)", rep)
+            concrete += 1
+    ctx.log("%d structures plotted three times in one process" % len(sel))
     # histories at one path: a plot written over another plot is the plot of the last command
     hist_runs = 0
     for (text, scale, dscale, dark), o in list(zip(items, outs))[:3]:
